@@ -1229,7 +1229,7 @@ def gen_crm(rng) -> dict:
 
 def crm_line(case) -> str:
     _, ps = crm_build(case)
-    return 'CRMARK a=1 p=' + ','.join(k + cps(v) for k, v in ps)
+    return 'CRMARK a=2 p=' + ','.join(k + cps(v) for k, v in ps)
 
 
 def check_crm(run: Run, case, ans) -> list[Disagreement]:
@@ -1242,9 +1242,9 @@ def check_crm(run: Run, case, ans) -> list[Disagreement]:
     except Exception as e:
         impl = err_text(e)
     spec = 'ok:' + f['want']
-    tags = ['F17x'] if f['coll'] == '1' else []
+    tags: list[str] = []          # F17x is fixed (fix-c17-5): the model scans every piece, nothing is tagged
     st = run.stats
-    st.count('crm:%s%s' % ('CR' if f['cr'] == '1' else 'no-CR', ':mark-collides(F17x)' if f['coll'] == '1' else ''))
+    st.count('crm:%s%s%s' % ('CR' if f['cr'] == '1' else 'no-CR', ':private-use in namespace URI' if case.get('uri') and any(0xE000 <= ord(ch) <= 0xF8FF for ch in case['uri']) else '', ':mark-collides' if f['coll'] == '1' else ''))
     if f['cr'] == '1':
         st.count('crm:mark=U+%04X' % int(f['mark']) if f['mark'] != 'none' else 'crm:mark=none')
     res = []
